@@ -66,7 +66,8 @@ pub use pointers::*;
 pub(crate) mod verif_exports {
     pub use super::collector::{Collector, LocalHandle};
     pub(crate) use super::internal::{
-        epoch_addr, queue_is_empty, set_bag_capacity, set_epoch, set_manual_interval,
+        epoch_addr, queue_front_epoch, queue_is_empty, set_bag_capacity, set_epoch,
+        set_manual_interval,
     };
     pub(crate) use super::sync::list::{Entry, IsElement, IterError, List};
     pub(crate) use super::sync::queue::Queue;
